@@ -49,6 +49,11 @@ type Program struct {
 	loadSecs      float64
 	mutGlobals    []*ssa.Global
 	lits          map[string]string
+	wordLists     map[string]*WordList
+	groundDone    bool
+	groundObls    []*Obligation
+	listFacts     map[string]bool
+	groundHints   map[string]map[string]string
 	litList       []string
 	extConsts     map[string]bool
 }
@@ -120,6 +125,12 @@ func LoadProgram(repo string) (*Program, error) {
 	return p, nil
 }
 
+func (p *Program) allPkgs() []*packages.Package {
+	var out []*packages.Package
+	packages.Visit(p.Pkgs, nil, func(pk *packages.Package) { out = append(out, pk) })
+	return out
+}
+
 func (p *Program) isOurPkg(pk *ssa.Package) bool {
 	return pk != nil && (pk == p.Main || pk == p.Tool)
 }
@@ -189,11 +200,15 @@ func (p *Program) prelude(native bool) string {
 		b.WriteString("(declare-fun f_declName (Int) Str)\n")
 	}
 	s += b.String()
-	if p.listsOK {
-		s += ListAxioms()
-	}
+	s += ListAxioms(p.listFacts, p.listsOK)
+	var ecs []string
 	for c := range p.extConsts {
-		s += fmt.Sprintf("(declare-const %s Int)\n", c)
+		ecs = append(ecs, c)
+	}
+	sort.Strings(ecs)
+	for _, c := range ecs {
+		// assumption: exported variables of dependency packages holding interface values are non-nil
+		s += fmt.Sprintf("(declare-const %s Int)\n(assert (and (> %s 0) (< %s 20)))\n", c, c, c)
 	}
 	p.preludeCache[native] = s
 	return s
@@ -250,7 +265,11 @@ func (p *Program) globalValue(g *ssa.Global) (SV, bool) {
 		if !ok {
 			return SV{}, false
 		}
-		return SV{K: KSlice, Elem: "string", Ref: IntLit(int64(l + 1)), Off: IntLit(0), Len: IntLit(2048), Cap: IntLit(2048)}, true
+		n := int64(2048)
+		if wl := p.loadWordLists()[g.Name()]; wl != nil && wl.Bad == "" {
+			n = int64(len(wl.Words))
+		}
+		return SV{K: KSlice, Elem: "string", Ref: IntLit(int64(l + 1)), Off: IntLit(0), Len: IntLit(n), Cap: IntLit(n)}, true
 	}
 	sv, ok := p.initVals[g]
 	return sv, ok
